@@ -197,20 +197,21 @@ Definition lazy_agree (strings contigs : smap) (ik : name -> option ikind) (fk :
   | None => true
   end.
 
-Theorem lazy_eq_eager : forall v44 strings contigs ik fk hs bs t,
+Theorem lazy_gen_eq_eager : forall v44 strings contigs ik fk hs hdr bs t,
+  hdr = None \/ hdr = Some hs ->
   byte_list bs ->
   dec_record_typed strings contigs ik fk hs bs = ROk t ->
   lazy_agree strings contigs ik fk hs bs = true ->
-  exists t', lazy_read v44 strings contigs ik fk bs = ROk t' /\ trec_norm v44 t' = trec_norm v44 t.
+  exists t', lazy_read_gen v44 strings contigs ik fk hdr bs = ROk t' /\ trec_norm v44 t' = trec_norm v44 t.
 Proof.
-  intros v44 strings contigs ik fk hs bs t Hbytes H Hag.
+  intros v44 strings contigs ik fk hs hdr bs t Hhdr Hbytes H Hag.
   unfold dec_record_typed in H. unfold lazy_agree in Hag.
   destruct (dec_record_k strings contigs hs bs) as [[[[h infos] fmts] rest]|] eqn:Erk; [|discriminate].
   pose proof Erk as Erk'. unfold dec_record_k in Erk'.
   destruct (dec_frame bs) as [[[sb ib] rest']|] eqn:Ef; [|discriminate].
   destruct (dec_frame_bytes _ _ _ _ Hbytes Ef) as [Hbs Hbi].
   destruct (dec_head strings contigs sb) as [[h' info_bytes]|] eqn:Eh; [|discriminate].
-  destruct (hs <? h_n_sample h'); [discriminate|].
+  destruct (hs <? h_n_sample h') eqn:Ehs; [discriminate|].
   destruct (dec_fields_k strings 1 true (Z.to_nat (h_n_info h')) info_bytes) as [[infos' r1]|] eqn:Ei; [|discriminate].
   destruct (dec_fields_k strings (Z.to_nat (h_n_sample h')) false (Z.to_nat (h_n_fmt h')) ib) as [[fmts' r2]|] eqn:Efm; [|discriminate].
   injection Erk' as Hh Hi Hfm Hr. subst h' infos' fmts' rest'.
@@ -233,7 +234,7 @@ Proof.
   destruct (columns_agree v44 strings fk ns fmts ss cols Hf2 Hcols Hfp) as [lcols [Hlc Hnc]].
   (* assemble *)
   eexists. split.
-  - unfold lazy_read. rewrite Ef. rewrite (sv_index _ _ _ _ _ _ Hsv). cbn [rbind].
+  - unfold lazy_read_gen. rewrite Ef. rewrite (sv_index _ _ _ _ _ _ Hsv). cbn [rbind].
     rewrite (sv_chrom _ _ _ _ _ _ Hsv). cbn [rbind]. rewrite (sv_pos _ _ _ _ _ _ Hsv). cbn [rbind].
     rewrite (sv_ids _ _ _ _ _ _ Hsv). cbn [rbind]. rewrite (sv_ref _ _ _ _ _ _ Hsv). cbn [rbind].
     rewrite (sv_alts _ _ _ _ _ _ Hsv). cbn [rbind]. rewrite (sv_qual _ _ _ _ _ _ Hsv). cbn [rbind].
@@ -241,12 +242,30 @@ Proof.
     unfold lz_info. rewrite (sv_info _ _ _ _ _ _ Hsv). cbn [rbind]. rewrite (sv_ninfo _ _ _ _ _ _ Hsv). cbn [rbind].
     rewrite Hlif. cbn [rbind].
     unfold lz_samples. rewrite (sv_nsample _ _ _ _ _ _ Hsv). cbn [rbind]. rewrite (sv_nfmt _ _ _ _ _ _ Hsv). cbn [rbind].
-    cbv zeta. rewrite <- Ens. rewrite Hval. rewrite Hall. rewrite (names_agree _ _ _ Hf2). cbn [rbind].
+    cbv zeta. rewrite <- Ens. rewrite Hval.
+    assert (too_many_samples hdr (h_n_sample h) = false) as Htm by (destruct Hhdr as [E|E]; subst hdr; [reflexivity|exact Ehs]).
+    rewrite Htm. rewrite Hall. rewrite (names_agree _ _ _ Hf2). cbn [rbind].
     rewrite Hlc. cbn [rbind]. reflexivity.
   - subst t. unfold trec_norm. cbn [t_head t_info t_keys t_rows fst snd].
     rewrite imap_collect_distinct by (rewrite Hkeys; exact Hdist).
     f_equal. rewrite !rows_norm. rewrite Hnc. reflexivity.
 Qed.
+
+(* under the header: the lazy path of the tree *)
+Theorem lazy_hdr_eq_eager : forall v44 strings contigs ik fk hs bs t,
+  byte_list bs ->
+  dec_record_typed strings contigs ik fk hs bs = ROk t ->
+  lazy_agree strings contigs ik fk hs bs = true ->
+  exists t', lazy_read_hdr v44 strings contigs ik fk hs bs = ROk t' /\ trec_norm v44 t' = trec_norm v44 t.
+Proof. intros v44 strings contigs ik fk hs bs t. apply lazy_gen_eq_eager. right. reflexivity. Qed.
+
+(* without the sample-count check (the statement other properties import) *)
+Theorem lazy_eq_eager : forall v44 strings contigs ik fk hs bs t,
+  byte_list bs ->
+  dec_record_typed strings contigs ik fk hs bs = ROk t ->
+  lazy_agree strings contigs ik fk hs bs = true ->
+  exists t', lazy_read v44 strings contigs ik fk bs = ROk t' /\ trec_norm v44 t' = trec_norm v44 t.
+Proof. intros v44 strings contigs ik fk hs bs t. apply lazy_gen_eq_eager. left. reflexivity. Qed.
 
 (* under a header without Character arrays in INFO and without Character FORMAT keys the condition
    holds by itself: the theorem is then unconditional (but for the bytes being bytes) *)
@@ -269,10 +288,10 @@ Qed.
 Corollary lazy_eq_eager_without_characters : forall v44 strings contigs ik fk hs bs t,
   no_character_keys ik fk -> byte_list bs ->
   dec_record_typed strings contigs ik fk hs bs = ROk t ->
-  exists t', lazy_read v44 strings contigs ik fk bs = ROk t' /\ trec_norm v44 t' = trec_norm v44 t.
+  exists t', lazy_read_hdr v44 strings contigs ik fk hs bs = ROk t' /\ trec_norm v44 t' = trec_norm v44 t.
 Proof.
   intros v44 strings contigs ik fk hs bs t Hn Hb H.
-  apply (lazy_eq_eager v44 strings contigs ik fk hs bs t Hb H). apply lazy_agree_without_characters. exact Hn.
+  apply (lazy_hdr_eq_eager v44 strings contigs ik fk hs bs t Hb H). apply lazy_agree_without_characters. exact Hn.
 Qed.
 
 (* totality once more, as a corollary in the shape of (b): on an accepted record of the class the lazy
@@ -280,17 +299,17 @@ Qed.
 Corollary lazy_accepts_what_eager_accepts : forall v44 strings contigs ik fk hs bs t,
   byte_list bs -> dec_record_typed strings contigs ik fk hs bs = ROk t ->
   lazy_agree strings contigs ik fk hs bs = true ->
-  lazy_read v44 strings contigs ik fk bs <> RErr.
+  lazy_read_hdr v44 strings contigs ik fk hs bs <> RErr.
 Proof.
   intros v44 strings contigs ik fk hs bs t Hb H Ha E.
-  destruct (lazy_eq_eager v44 _ _ _ _ _ _ _ Hb H Ha) as [t' [Ht _]]. rewrite Ht in E. discriminate.
+  destruct (lazy_hdr_eq_eager v44 _ _ _ _ _ _ _ Hb H Ha) as [t' [Ht _]]. rewrite Ht in E. discriminate.
 Qed.
 
 (* agreement of the error cases, in the direction that holds: a record the lazy path REJECTS is rejected
    by the eager reader too (the converse is false: see the lazy_accepts theorems of LazyClasses) *)
 Corollary lazy_rejects_eager_rejects : forall v44 strings contigs ik fk hs bs,
   byte_list bs -> lazy_agree strings contigs ik fk hs bs = true ->
-  lazy_read v44 strings contigs ik fk bs = RErr ->
+  lazy_read_hdr v44 strings contigs ik fk hs bs = RErr ->
   dec_record_typed strings contigs ik fk hs bs = RErr.
 Proof.
   intros v44 strings contigs ik fk hs bs Hb Ha E.
